@@ -43,6 +43,10 @@ def run(ctx):
     ok, log = ctx.extract("group", ["lean/KafkaVerif/Gen/GroupFacts.lean"])
     if not ok:
         broken.append({"kind": "obligation", "name": "translator go/extract group", "detail": log[-1500:]})
+    # the *_on_the_wire theorems run the conn builder's regenerated parser programs: regenerate them from this tree too
+    ok, log = ctx.extract("connlegacy", ["lean/KafkaVerif/Gen/ConnLegacy.lean"])
+    if not ok:
+        broken.append({"kind": "obligation", "name": "translator go/extract connlegacy", "detail": log[-1500:]})
     res = ctx.prove(MODULE)
     if not res["ok"]:
         broken.append({"kind": "obligation", "theorems": res["failed"], "detail": res["reasons"][:10]})
